@@ -160,7 +160,7 @@ def check_reset(ctx, chk, prefix):
     ok = False
     detail = "no store to current_state"
     src_ok = False
-    if len(cur) == 1 and not cur[0].ev.pc:
+    if len(cur) == 1 and not [c for c in cur[0].ev.pc if c[0] != "fact"]:
         v = cur[0].value
         detail = cn.show(v)
         if v[0] == "new" and v[1] == "State":
